@@ -48,12 +48,17 @@ func proposerSim(r *vk.Run, c *vk.Case, ceiling int, m marshal.Marshalizer) {
 	detail := func() map[string]interface{} {
 		return map[string]interface{}{"configuredMin": prodMinSize, "configuredMax": prodMaxSize, "style": style, "history": hist}
 	}
+	maxReported := false
 	checkMax := func(when string) bool {
 		cur := th.GetCurrentMaxSize()
 		r.Eval(1)
 		r.Max("sim_largest_current_max_size", int64(cur))
 		if cur > prodMaxSize {
 			hist = append(hist, fmt.Sprintf("%s: GetCurrentMaxSize()=%d", when, cur))
+			if maxReported {
+				return false
+			}
+			maxReported = true
 			r.Violation(c.Idx, "throttle-max-above-configured",
 				fmt.Sprintf("GetCurrentMaxSize() = %d > configured maximum %d %s (round history of %d entries in the replay detail)", cur, prodMaxSize, when, len(hist)), detail())
 			return false
@@ -64,9 +69,7 @@ func proposerSim(r *vk.Run, c *vk.Case, ceiling int, m marshal.Marshalizer) {
 		round += 1 + uint64(rng.Intn(3))
 		th.ComputeCurrentMaxSize()
 		allowed := th.GetCurrentMaxSize()
-		if !checkMax("after ComputeCurrentMaxSize") {
-			return
-		}
+		checkMax("after ComputeCurrentMaxSize")
 		if allowed < prevMax {
 			sawShrink = true
 		}
@@ -187,14 +190,10 @@ func proposerSim(r *vk.Run, c *vk.Case, ceiling int, m marshal.Marshalizer) {
 				fmt.Sprintf("IsMaxBlockSizeReached accepted %d miniblocks + %d txs with allowed size %d (configured max %d) but the body is %d bytes > %d", nmb, ntx, allowed, prodMaxSize, size, networkLimit), detail())
 			return
 		}
-		if !checkMax("after Add/Succeed") {
-			return
-		}
+		checkMax("after Add/Succeed")
 	}
 	th.ComputeCurrentMaxSize()
-	if !checkMax("after the last ComputeCurrentMaxSize") {
-		return
-	}
+	checkMax("after the last ComputeCurrentMaxSize")
 	r.Count("sim_histories", 1)
 	if sawFailOversized {
 		r.Count("sim_histories_with_failed_oversized_round", 1)
@@ -208,7 +207,8 @@ func proposerSim(r *vk.Run, c *vk.Case, ceiling int, m marshal.Marshalizer) {
 // concurrentAdds: G goroutines add known totals of miniblocks / txs to one computation in small
 // increments while a second instance receives the same totals sequentially; both must then give the
 // same answers (metamorphic): the boundary of IsMaxBlockSizeWithoutThrottleReached(extraMb, t) is
-// bisected on both for several extraMb.
+// bisected on both for several extraMb. Repeated 25 times per case (Init in between) with long enough
+// bursts that the goroutines really overlap.
 func concurrentAdds(r *vk.Run, c *vk.Case, m marshal.Marshalizer) {
 	rng := c.Rng
 	mk := func() fullSizer {
@@ -224,41 +224,6 @@ func concurrentAdds(r *vk.Run, c *vk.Case, m marshal.Marshalizer) {
 		r.Inconclusive("size computation constructor failed")
 		return
 	}
-	conc.Init()
-	seq.Init()
-	workers := 4 + rng.Intn(9)
-	type plan struct{ mbOps, txOps, txInc int }
-	plans := make([]plan, workers)
-	totalMb, totalTx := 0, 0
-	for w := range plans {
-		plans[w] = plan{mbOps: 20 + rng.Intn(60), txOps: 200 + rng.Intn(400), txInc: 1 + rng.Intn(3)}
-		totalMb += plans[w].mbOps
-		totalTx += plans[w].txOps * plans[w].txInc
-	}
-	start := make(chan struct{})
-	var wg sync.WaitGroup
-	for w := range plans {
-		wg.Add(1)
-		go func(p plan) {
-			defer wg.Done()
-			<-start
-			mbLeft := p.mbOps
-			for i := 0; i < p.txOps; i++ {
-				conc.AddNumTxs(p.txInc)
-				if mbLeft > 0 && i%(p.txOps/p.mbOps+1) == 0 {
-					conc.AddNumMiniBlocks(1)
-					mbLeft--
-				}
-			}
-			for ; mbLeft > 0; mbLeft-- {
-				conc.AddNumMiniBlocks(1)
-			}
-		}(plans[w])
-	}
-	close(start)
-	wg.Wait()
-	seq.AddNumMiniBlocks(totalMb)
-	seq.AddNumTxs(totalTx)
 	boundary := func(s fullSizer, extraMb int) int {
 		lo, hi := -1, 60000
 		for lo < hi {
@@ -271,18 +236,64 @@ func concurrentAdds(r *vk.Run, c *vk.Case, m marshal.Marshalizer) {
 		}
 		return lo
 	}
-	r.Count("concurrent_add_cases", 1)
-	r.Count("concurrent_add_operations", totalMb+totalTx)
-	for _, extra := range []int{0, 1, rng.Intn(500), 2000} {
-		a, b := boundary(conc, extra), boundary(seq, extra)
-		r.Eval(1)
-		if a != b {
-			r.Violation(c.Idx, "concurrent-adds-lost",
-				fmt.Sprintf("%d goroutines added %d miniblocks + %d txs; afterwards the largest accepted extra tx count (with %d extra miniblocks) is %d, but %d on an instance that received the same totals sequentially (difference %d txs)",
-					workers, totalMb, totalTx, extra, a, b, a-b),
-				map[string]interface{}{"workers": workers, "totalMiniBlocks": totalMb, "totalTxs": totalTx, "extraMiniBlocks": extra, "boundaryConcurrent": a, "boundarySequential": b})
-			return
+	type plan struct{ mbOps, txOps, txInc int }
+	reps := 25
+	workers, totalMb, totalTx := 0, 0, 0
+	for rep := 0; rep < reps; rep++ {
+		conc.Init()
+		seq.Init()
+		workers = 4 + rng.Intn(9)
+		plans := make([]plan, workers)
+		totalMb, totalTx = 0, 0
+		budget := 12000 + rng.Intn(8000) // single-tx additions in total: the estimate stays below the cap
+		for w := range plans {
+			inc := 1
+			if rng.Chance(1, 4) {
+				inc = 2
+			}
+			plans[w] = plan{mbOps: 20 + rng.Intn(60), txOps: budget / workers / inc, txInc: inc}
+			totalMb += plans[w].mbOps
+			totalTx += plans[w].txOps * plans[w].txInc
+		}
+		start := make(chan struct{})
+		var wg sync.WaitGroup
+		for w := range plans {
+			wg.Add(1)
+			go func(p plan) {
+				defer wg.Done()
+				<-start
+				mbLeft := p.mbOps
+				every := p.txOps/p.mbOps + 1
+				for i := 0; i < p.txOps; i++ {
+					conc.AddNumTxs(p.txInc)
+					if mbLeft > 0 && i%every == 0 {
+						conc.AddNumMiniBlocks(1)
+						mbLeft--
+					}
+				}
+				for ; mbLeft > 0; mbLeft-- {
+					conc.AddNumMiniBlocks(1)
+				}
+			}(plans[w])
+		}
+		close(start)
+		wg.Wait()
+		seq.AddNumMiniBlocks(totalMb)
+		seq.AddNumTxs(totalTx)
+		r.Count("concurrent_add_rounds", 1)
+		r.Count("concurrent_add_operations", totalMb+totalTx)
+		for _, extra := range []int{0, 1, rng.Intn(500)} {
+			a, b := boundary(conc, extra), boundary(seq, extra)
+			r.Eval(1)
+			if a != b {
+				r.Violation(c.Idx, "concurrent-adds-lost",
+					fmt.Sprintf("%d goroutines added %d miniblocks + %d txs; afterwards the largest accepted extra tx count (with %d extra miniblocks) is %d, but %d on an instance that received the same totals sequentially (difference %d txs)",
+						workers, totalMb, totalTx, extra, a, b, a-b),
+					map[string]interface{}{"workers": workers, "totalMiniBlocks": totalMb, "totalTxs": totalTx, "extraMiniBlocks": extra, "boundaryConcurrent": a, "boundarySequential": b, "repetition": rep})
+				return
+			}
 		}
 	}
+	r.Count("concurrent_add_cases", 1)
 	r.Shape(fmt.Sprintf("concurrent-adds workers=%d mb~%d tx~%d", workers, totalMb/200*200, totalTx/4000*4000))
 }
